@@ -7,7 +7,7 @@ combinator model, re-extracted from the Rust sources on every run.
     Rust source breaks the extraction instead of silently leaving the model behind
   * ScionHeaderPathLayout::MAX_SIZE_BYTES (formula re-evaluated from its three operands)
   * EXP_TIME_UNIT and the `exp_time + 1` multiplier of exp_time_to_duration
-  * the initial MTU (`u16::MAX`) and the truncating `as u16` cast of the AS MTU in PathSolution::path
+  * the initial MTU (`u16::MAX`) and the saturating conversion of the AS MTU (u32) in PathSolution::path
   * the loop threshold of has_loops (`*v > 2`)
   * the segment sequencing rule of PathSolution::valid_next_seg as Boolean functions of (is core,
     traversed in construction direction) of the edges, with the definitions of SolutionEdge::is_up /
@@ -168,10 +168,14 @@ def register(api):
         if not re.search(r"let\s+mut\s+mtu\s*=\s*u16::MAX\s*;", pbody):
             raise E("PathSolution::path: initial mtu is no longer u16::MAX")
         vals["MTU_INIT"] = 65535
-        m = re.search(r"as_entry\.mtu\s+as\s+(u\d+)", pbody)
-        if not m:
-            raise E("PathSolution::path: `as_entry.mtu as uN` cast not found")
-        vals["AS_MTU_CAST_BITS"] = int(m.group(1)[1:])
+        # the AS MTU (u32) enters the u16 minimum saturated (since `fix: combinator must not truncate an AS MTU
+        # above u16::MAX`; before: the truncating cast `as_entry.mtu as u16`)
+        m = re.search(r"mtu\s*=\s*std::cmp::min\(\s*mtu\s*,\s*(u\d+)::try_from\(as_entry\.mtu\)\.unwrap_or\((u\d+)::MAX\)\s*\)", pbody)
+        if not m or m.group(1) != m.group(2):
+            raise E("PathSolution::path: `min(mtu, uN::try_from(as_entry.mtu).unwrap_or(uN::MAX))` not found")
+        if re.search(r"as_entry\.mtu\s+as\s+u\d+", pbody):
+            raise E("PathSolution::path: truncating cast of as_entry.mtu is back")
+        vals["AS_MTU_SAT"] = 2 ** int(m.group(1)[1:]) - 1
 
         # valid_next_seg decision table -> Boolean functions over (is core, in construction direction) of the edges
         vbody = fn_body(gr, "valid_next_seg")
@@ -262,7 +266,7 @@ def register(api):
         body = "namespace ScionVerif.Generated.Comb\n"
         for k in ("MAX_SEGMENTS", "MAX_SEGMENT_HOPS", "MAX_TOTAL_HOPS", "TOTAL_HOPS_LIMIT", "META_SIZE", "INFO_SIZE", "HOP_SIZE", "SEG0_LEN_BITS",
                   "SEG1_LEN_BITS", "SEG2_LEN_BITS", "PATH_MAX_SIZE", "EXP_UNIT_MS", "MTU_INIT",
-                  "AS_MTU_CAST_BITS", "LOOP_MAX_IFS"):
+                  "AS_MTU_SAT", "LOOP_MAX_IFS"):
             body += f"def {k} : Nat := {vals[k]}\n"
         body += ("/-- `PathSolution::valid_next_seg`, one edge present. `a` = the edge present, `n` = the next edge; "
                  "`xC` = its segment is core, `xD` = it traverses its segment in construction direction "
